@@ -44,6 +44,12 @@ var hasEnterClass = false
 func NewJavaFullListener(nodes map[string]core_domain.CodeDataStruct, file string) *JavaFullListener {
 	identMap = nodes
 	imports = nil
+	mapFields = make(map[string]string)
+	localVars = make(map[string]string)
+	formalParameters = make(map[string]string)
+	creatorMethodMap = make(map[string]core_domain.CodeFunction)
+	currentType = ""
+	hasEnterClass = false
 	fileName = file
 	currentPkg = ""
 	classNodes = nil
